@@ -28,6 +28,31 @@ pub enum Node {
 thread_local! {
     static FS: RefCell<BTreeMap<PathBuf, Node>> = const { RefCell::new(BTreeMap::new()) };
     static OPENS: RefCell<Vec<PathBuf>> = const { RefCell::new(Vec::new()) };
+    /// lowest / highest stack address seen in a file-system call of the code under test
+    static SP: std::cell::Cell<(usize, usize)> = const { std::cell::Cell::new((usize::MAX, 0)) };
+}
+/// Notes how deep the stack is at this file-system call. The seam sits at the bottom of every
+/// call chain of the parsers, so the spread of these addresses over one parse is (to within a
+/// frame) the stack the code under test used - a resource the simulator can watch without any
+/// hook in that code.
+#[inline(never)]
+fn note_stack() {
+    let probe = 0u8;
+    let sp = &probe as *const u8 as usize;
+    let _ = SP.try_with(|c| {
+        let (lo, hi) = c.get();
+        c.set((lo.min(sp), hi.max(sp)));
+    });
+}
+/// Forgets the stack addresses seen so far.
+pub fn reset_stack_extent() {
+    SP.with(|c| c.set((usize::MAX, 0)));
+}
+/// Spread (octets) of the stack addresses at which the code under test made file-system calls
+/// since the last reset; 0 if it made fewer than two.
+pub fn stack_extent() -> usize {
+    let (lo, hi) = SP.with(|c| c.get());
+    hi.saturating_sub(lo.min(hi))
 }
 pub(crate) fn reset() {
     FS.with(|f| f.borrow_mut().clear());
@@ -108,6 +133,7 @@ pub struct File {
 }
 impl File {
     pub fn open(p: impl AsRef<Path>) -> io::Result<File> {
+        note_stack();
         crate::switch(); // a system call: other simulated threads may run here
         OPENS.with(|o| o.borrow_mut().push(norm(p.as_ref())));
         match get(p.as_ref())? {
@@ -119,6 +145,7 @@ impl File {
 }
 impl io::Read for File {
     fn read(&mut self, buf: &mut [u8]) -> io::Result<usize> {
+        note_stack();
         crate::switch();
         if self.is_dir {
             crate::count_fault(Fault::FsEisdir);
